@@ -177,6 +177,43 @@ theorem comment_header_invisible (text sql : Str) (stripLiterals : Bool) (h : NU
     lex (commentHeader text stripLiterals ++ sql) = lex sql :=
   lex_commentHeader text sql stripLiterals h
 
+/-! ## 4c. numbers: the value the server reads back -/
+
+/-- NAMED ASSUMPTION about Go's `strconv` (its shortest-digits algorithm is not proved here): for a finite non-negative
+float64 with bit pattern `x`, `FormatFloat(v, 'f', -1, 64)` is `renderF ds dp` for decimal digits `ds` and a
+decimal-point position `dp` such that the decimal `ds × 10^(dp − |ds|)` rounds to `x` again at 64 bits. (At bitSize 32
+the digits only round-trip through a 32-bit float: seeded change C01-r4-1; the call-argument table of
+Props/C04Sites `format_number_calls` pins bitSize 64.) -/
+structure GoShortestRoundTrips64 (x : Nat) (ds : Str) (dp : Int) : Prop where
+  digits : ∀ c ∈ ds, isDigit c = true
+  zero : ds ≠ [] ∨ dp = 0
+  round_trip : nearestF64Bits (ratOf (valOf ds) (dp - ds.length)) = x
+
+/-- the text strconv writes for digits/decimal point is exactly ONE number token, and the exact value the server's
+numeric input reads from that token is `ds × 10^(dp − |ds|)` — digits/exponent → token → value, for all digit strings
+and all decimal-point positions (no exponent form, no length bound) -/
+theorem number_token_exact_value (ds : Str) (dp : Int) (r : Str) (hds : ∀ c ∈ ds, isDigit c = true)
+    (hz : ds ≠ [] ∨ dp = 0) (hr : numFollow r = true) :
+    lex (renderF ds dp ++ r) = Tok.num (renderF ds dp) :: lex r
+      ∧ decValue (renderF ds dp) = ratOf (valOf ds) (dp - ds.length) :=
+  ⟨lex_renderF ds dp r hds hz hr, decValue_renderF ds dp hds hz⟩
+
+/-- hence, under the named assumption, the float8 the server reads back from a formatted double is the double itself -/
+theorem number_literal_value_round_trip (x : Nat) (ds : Str) (dp : Int) (r : Str) (h : GoShortestRoundTrips64 x ds dp)
+    (hr : numFollow r = true) :
+    lex (renderF ds dp ++ r) = Tok.num (renderF ds dp) :: lex r ∧ nearestF64Bits (decValue (renderF ds dp)) = x := by
+  refine ⟨lex_renderF ds dp r h.digits h.zero hr, ?_⟩
+  rw [decValue_renderF ds dp h.digits h.zero]
+  exact h.round_trip
+
+/-- integers (`FormatInt` / `FormatUint` base 10 = the digits with the decimal point at the end) are read back exactly -/
+theorem integer_literal_value (ds : Str) (r : Str) (hds : ∀ c ∈ ds, isDigit c = true) (hne : ds ≠ []) (hr : numFollow r = true) :
+    lex (renderF ds ds.length ++ r) = Tok.num (renderF ds ds.length) :: lex r
+      ∧ decValue (renderF ds ds.length) = (valOf ds * 10 ^ 0, 1) := by
+  have h := number_token_exact_value ds ds.length r hds (Or.inl hne) hr
+  refine ⟨h.1, ?_⟩
+  rw [h.2]; simp [ratOf]
+
 /-! ## 5. identifiers (variable names, result aliases) -/
 
 /-- the symbol of a Cypher variable / alias as the frontend stores it (`ctx.GetText()`): a name is either written
@@ -365,6 +402,15 @@ example : String.ofList (commentHeader "match (n) where n.`a\rdelete from node; 
     "-- match (n) where n.`a\n-- delete from node; --` = $STRIPPED return n\n" := by decide
 example : lex (commentHeader "x\u2028y\x0bz\x0c\u0085w\r\nq".toList false ++ "select 1;".toList) = lex "select 1;".toList := by decide
 example : linesCommented .start "-- a\rdelete from node; --\nselect 1;".toList = false := by decide
+-- numbers: the hypotheses are satisfiable, and the 32-bit digits of a double do not read back as the double
+example : GoShortestRoundTrips64 4593560419846153055 "123456789".toList 0 :=   -- 0.123456789
+  ⟨by decide, by decide, by decide⟩
+example : String.ofList (renderF "123456789".toList 0) = "0.123456789" ∧ String.ofList (renderF "1".toList 22) = "1000000000000000000000"
+    ∧ String.ofList (renderF "1".toList (-6)) = "0.0000001" ∧ String.ofList (renderF [] 0) = "0" := by decide
+example : nearestF64Bits (decValue "0.12345679".toList) ≠ nearestF64Bits (decValue "0.123456789".toList) := by decide
+example : nearestF64Bits (decValue "16777216".toList) ≠ nearestF64Bits (decValue "16777217".toList) := by decide
+example : nearestF64Bits (decValue "0.3".toList) ≠ nearestF64Bits (decValue "0.30000000000000004".toList) := by decide
+example : nearestF64Bits (ratOf 5 (-324)) = 1 ∧ nearestF64Bits (ratOf 17976931348623157 292) = 0x7FEFFFFFFFFFFFFF := by decide +kernel
 -- the NUL guard is needed: the server's view of the text ends at the NUL
 example : lex (pgQuote ['a', NUL, 'b'] ++ " x".toList) = [.err "unterminated quoted string", .nul] := by decide
 -- decoder: accepted and rejected tokens
